@@ -81,4 +81,23 @@ CHECKS["C08"] = {
             "__cancelOrder__ unchecked; loser-then-rejected reported twice; cancellations buffered at completion are dropped.",
     "design_ref": "DESIGN.md §4 C08",
 }
+CHECKS["C14"] = {
+    "technique": "Lean 4 proof over M-Roots (guard-stack invariant for every event sequence) and M-Heap (collection reclaims exactly the unreachable) + invariant evaluation on every real interpreter state + 8-fold repetition with live-object counts",
+    "text": "inv_step/inv_run (env_guards always equals open scopes + call frames, for every sequence of push/pop scope, call, return from any depth, break/continue/finally unwinding, frame unwinding and uncaught errors), "
+            "roots_balanced/uncaught_balanced/repeat_constant (a finished or failed run leaves the guard stack at its starting height, however often it is repeated) and collect_frees_unreachable (every slot no live guard reaches, cycles included, is reclaimed) are Lean theorems. "
+            "The invariant is evaluated, through the Lean definition, on the real interpreter's state after every step of generated programs; each program (also ones ending in an uncaught error at a random depth) is run 8 times on one interpreter "
+            "under several GC thresholds and host-forced collections, and the live-object count after collect() must stay constant and the run bookkeeping must be back at rest.",
+    "note": "Which objects the interpreter keeps reachable through root_guard and register guards is observed over repetitions, not modelled; programs outside the generator's grammar are not covered.",
+    "design_ref": "DESIGN.md §4 C14",
+}
+CHECKS["C11"] = {
+    "technique": "Lean 4 proof over M-Life (lifecycle state machine over M-Roots) + comparison of its predictions with verif_state after every run + observer programs against a fresh interpreter",
+    "text": "quiescent_after_error (an uncaught error at any depth leaves no scope, guard, call-stack entry, active VM, module bookkeeping or scratch export), quiescent_after_complete, abandon_then_prepare_clean "
+            "(prepare after a run abandoned at an arbitrary step gives exactly the state prepare gives on a clean interpreter), observer_equiv (any later run starts from the same lifecycle state as on a fresh interpreter) "
+            "and wf_run (guard stack and call stack stay consistent with the VM frames for every event sequence) are Lean theorems. Histories of victim runs (uncaught error planted at random depth, abandoned at step "
+            "0..1500, throwing module bodies) followed by observer programs are run on the real interpreter: verif_state after each run must equal M-Life's prediction, no local of the dead run may be visible, "
+            "and the observer's result must equal its result on a fresh interpreter.",
+    "note": "Suspended runs (orders / pending promises) left behind by the host are not reset by prepare() and are not part of the model; effects the victim makes deliberately on the global object are excluded by the property.",
+    "design_ref": "DESIGN.md §4 C11",
+}
 NOT_YET = {}
